@@ -84,7 +84,7 @@ PROPS["C14"] = dict(
 PROPS["C04"]["contracts"] = ["stdlib", "util_timeout", "util_retry", "util_url", "connectionpool"]
 
 PROPS["C01"] = dict(
-    contracts=["stdlib", "util_timeout", "util_retry", "util_url", "connectionpool"],
+    contracts=["stdlib", "util_timeout", "util_retry", "util_url", "connectionpool", "pool_queue"],
     trusted_base=COMMON_TRUSTED + ["sequential semantics (no other thread closes the pool between checkout and return; concurrency is C02)"],
     assumptions=["connection boundary (HTTPConnection.request/getresponse/close, _validate_conn, _prepare_proxy): assumed contracts - may raise any exception of the shapes listed in specs/retry.py:boundary_exception",
                  "HTTPConnectionPool._get_conn/_put_conn and BaseHTTPResponse.drain_conn are used at their lease-accounting contracts"],
@@ -273,15 +273,17 @@ PROPS["C03"] = dict(
     technique="bounded request-sequence contract on an in-memory network + deductive error-exit obligations (VCs from the real AST, z3)",
 )
 PROPS["C02"] = dict(
-    contracts=["stdlib", "util_timeout", "util_retry", "util_url", "connectionpool", "response"], extra=["extra.c02_order.check"], bounded=["c02"], level="other", trusted_base=COMMON_TRUSTED,
+    contracts=["stdlib", "util_timeout", "util_retry", "util_url", "connectionpool", "response", "pool_queue"], extra=["extra.c02_order.check"], bounded=["c02"], level="other", trusted_base=COMMON_TRUSTED,
     assumptions=["queue.LifoQueue is linearizable (assumed)", "attribute reads/writes are atomic under the GIL (assumed)"],
     not_decided=["eventual completion, deadlock freedom, lost wake-ups (liveness inside queue.LifoQueue): not decidable by contracts here",
                  "sockets closed after the pool object is dropped (weakref finalizer / GC): not decided",
-                 "a rely/guarantee re-verification of _get_conn/_put_conn with `self.pool` volatile (DESIGN section 5 C02) is not built; interleavings are covered only by ordering obligations + seeded thread runs"],
-    explanation="(1) Ordering obligations recomputed from the real AST (discharged by evaluation): close() clears self.pool before it starts draining the old queue (so a racing checkout sees a closed pool, not a drained queue it would block on); "
+                 "the rely/guarantee argument covers the pool attribute only (volatile, monotone to None) with the queue at an assumed linearizable contract; exclusivity of a checked-out connection follows from that contract, not from a proof about queue.LifoQueue"],
+    explanation="(0) PROVED under interference: the real bodies of _get_conn and _put_conn with `self.pool` VOLATILE (every read may observe None once another thread's close() cleared it) against the lease contracts urlopen relies on: "
+                "only ClosedPoolError / EmptyPoolError (and callee faults) escape _get_conn - never AttributeError - a lease is taken exactly when a connection is returned, a dropped idle connection is closed before reuse, _put_conn returns the slot or closes the connection. "
+                "(1) Ordering obligations recomputed from the real AST (discharged by evaluation): close() clears self.pool before it starts draining the old queue (so a racing checkout sees a closed pool, not a drained queue it would block on); "
                 "_close_pool_connections drains until queue.Empty (its loop is not cut short by an empty placeholder). (2) PROVED (shared with C01): release_conn returns a lease exactly once. (3) BOUNDED: close() over every queue content "
                 "of 1-3 slots; seeded real-thread runs (exclusive use of sockets, own responses, only pool errors, no hang within 20 s, block=True bound).",
     level_text="Ordering obligations (syntactic) + bounded sequential/threaded contract checks; the concurrency clauses are NOT proved (no rely/guarantee proof was built) and the liveness clauses are not decidable here.",
-    level_note="Known observation D10 (log argument self.pool.qsize() after a racing close() can raise AttributeError in _put_conn) is not exercised by the thread sample; it is described in DESIGN.md and not claimed either way.",
+    level_note="Known finding D10 (log argument self.pool.qsize() after a racing close() raises AttributeError in _put_conn) is found by the volatile-field proof and reported as KNOWN-FINDING.",
     technique="syntactic ordering obligations over the real AST + bounded sequential and seeded thread checks",
 )
